@@ -3,6 +3,7 @@
   (first layer: side counts of `load`, chain following on any linked table)
 -/
 import MotoModel.Proofs.DiskChain
+import MotoModel.Proofs.DiskFill
 import MotoModel.Props.C11
 import MotoModel.Spec.Dos
 namespace Moto.C07
@@ -74,5 +75,11 @@ theorem load_fd_three_sides_rejected (raw : Bytes) (hlen : raw.length = 327680 *
   have hne : ¬ (raw.length = 0) := by omega
   have hdiv : raw.length / 327680 = 3 := by rw [hlen]
   simp [hne, hs, hdiv]
+
+/-- **C07 (the extractor's reader)**: the efficient reader the model's extractor runs is, for every
+    side, table and entry (well-formed or not), the reader that mirrors controller.readFile's
+    slice-assignment loop. -/
+theorem reader_impl_is_reader (sd : Side) (bat : List Nat) (e : Entry) : readFileImpl sd bat e = readFile sd bat e :=
+  readFileImpl_eq sd bat e
 
 end Moto.C07
